@@ -23,5 +23,6 @@ def run(ctx, rep):
     rep.assume("the value each built-in computes (e.g. that substring returns the right substring) is not decided")
     _builtins.run(F, rep, "C14.builtin", "str+num")
     _strunits.run(F, rep)
+    _strunits.strip_once(F, rep)
     if _casts is not None:
         _casts.run_c14(F, rep)
